@@ -204,6 +204,7 @@ def _run_scenario(inst, res):
     all_x, _ = gp.get_all_discrete_x()
     for i_comb, row in enumerate(rows.tolist()):
         inst_g = build_instance(gp, row)
+        scen = dict(any_masked=False, any_spec_unsat=False, must_be_infeasible=False)
         for K in gp.connection_choice_nodes:
             mgr, node_map, exist_map, i_s, i_e, all_conn_nodes = gp._conn_choice_data_map[K]
             srcs, tgts = list(node_map[0]), list(node_map[1])
@@ -272,8 +273,10 @@ def _run_scenario(inst, res):
                         res['status'] = INCONCLUSIVE
             # masked <=> no valid set (solver: Spec unsatisfiable over all non-negative integer matrices)
             masked = (k_pat == -1)
+            scen['any_masked'] = scen['any_masked'] or masked
             res['obligations'] += 1
             spec_sat = prover.satisfiable(*pre, spec_a.formula(T))
+            scen['any_spec_unsat'] = scen['any_spec_unsat'] or spec_sat == 'unsat' 
             if spec_sat == 'unknown':
                 if res['status'] == HOLDS:
                     res['status'] = INCONCLUSIVE
@@ -283,8 +286,6 @@ def _run_scenario(inst, res):
                       dict(valid_connection_set_exists=spec_sat == 'sat'))
             else:
                 res['discharged'] += 1
-            if masked != (not bool(feas_mask[i_comb])) and len(gp.connection_choice_nodes) == 1:
-                _viol(res, 'scenario', dict(kind='mask_inconsistent', **sig), cfg, dict(i_comb=i_comb), dict(exist_map=k_pat, mask=bool(feas_mask[i_comb])), 'consistent')
 
             # --- (b) graph view
             s_b = [c for c in inst_g.graph.predecessors(K) if c in srcs]
@@ -387,12 +388,46 @@ def _run_scenario(inst, res):
                 got_edges = sorted((str(u), str(v)) for u, v, k, d in g2.graph.edges(keys=True, data=True)
                                    if d.get('type') == EdgeType.CONNECTS and u in sb and v in tb)
                 want_edges = sorted((str(a), str(b)) for a, b in edges)
+                if len(gp.connection_choice_nodes) == 1 and not g2.feasible:
+                    _viol(res, 'scenario', dict(kind='applied_set_infeasible', **sig), cfg, dict(i_comb=i_comb, edges=want_edges), dict(feasible=False), 'applying an offered set gives a feasible instance')
                 if got_edges != want_edges or K in g2.graph.nodes:
                     _viol(res, 'scenario', dict(kind='apply_edges', **sig), cfg, dict(i_comb=i_comb, edges=want_edges), dict(edges=got_edges, choice_left=K in g2.graph.nodes), 'exactly those edges')
+            # a connector that cannot stay unconnected while no counterpart connector exists at all: the instance with the
+            # open connection choice must already report infeasible
+            for side, other in ((s_b, t_b), (t_b, s_b)):
+                if len(other) == 0:
+                    for c_ in side:
+                        v_ = connector_view(inst_g.graph, c_)
+                        if v_ is not None and not (0 in v_[0][1] if v_[0][0] == 'list' else v_[0][1] <= 0):
+                            scen['must_be_infeasible'] = True
             if res['sample'] is None:
                 res['sample'] = dict(template=name, scenario=row, connectors_present=[str(c) for c in sb+tb], processor_pattern=k_pat,
                                      offered_processor=len(offered_a), offered_graph=len(offered_b), parallel_cap=[par_a, par_b],
                                      validator_paths=len(exb.paths))
+        # --- scenario level: the design-space mask drops the scenario iff some connection choice has no valid set; the
+        # instance's own feasibility flag never calls a scenario infeasible that has valid sets for every open choice
+        sig_s = dict(template=name, scenario=row)
+        res['obligations'] += 3
+        if scen['any_masked'] != (not bool(feas_mask[i_comb])):
+            _viol(res, 'scenario', dict(kind='design_space_mask', **sig_s), cfg, dict(i_comb=i_comb),
+                  dict(some_choice_masked=scen['any_masked'], listed=bool(feas_mask[i_comb])), 'a scenario is listed iff every connection choice has a valid set')
+        else:
+            res['discharged'] += 1
+        feas = bool(inst_g.feasible)
+        if not feas and not scen['any_spec_unsat']:
+            _viol(res, 'scenario', dict(kind='feasible_scenario_reported_infeasible', **sig_s), cfg, dict(i_comb=i_comb), dict(feasible=feas),
+                  'every open connection choice has a valid connection set')
+        else:
+            res['discharged'] += 1
+        if scen['must_be_infeasible'] and feas:
+            _viol(res, 'scenario', dict(kind='unconnectable_connector_not_reported', **sig_s), cfg, dict(i_comb=i_comb), dict(feasible=feas),
+                  'a connector that needs a connection has no counterpart at all: infeasible')
+        else:
+            res['discharged'] += 1
+        n_listed = sum(1 for x_ in np.array(all_x).tolist() if [int(v) for v in x_[:len(gp._sel_choice_idx_map)]] ==
+                       [0 if v < 0 else v for v in np.array(row)[gp._sel_choice_idx_map].tolist()]) if len(row) else len(all_x)
+        if scen['any_masked'] and n_listed > 0 and len(row) > 0 and not any(v < 0 for v in row):
+            _viol(res, 'scenario', dict(kind='masked_scenario_listed', **sig_s), cfg, dict(i_comb=i_comb), dict(rows=n_listed), 'no row for a masked scenario')
 
 
 # ---------------------------------------------------------------------------------------------------------------------
